@@ -2,6 +2,7 @@
 
 from __future__ import annotations
 
+from copy import deepcopy
 from typing import TYPE_CHECKING, Any, ClassVar
 from warnings import warn
 
@@ -317,6 +318,7 @@ class ExchangeContext(DisplacementContext):
         "_added_indices",
         "_deleted_atoms",
         "_deleted_indices",
+        "_saved_constraints",
         "accessible_volume",
         "chemical_potential",
         "exchange_atoms",
@@ -343,6 +345,7 @@ class ExchangeContext(DisplacementContext):
         self._added_atoms: Atoms = Atoms()
         self._deleted_indices: IntegerArray = []
         self._deleted_atoms: Atoms = Atoms()
+        self._saved_constraints: list[Any] | None = None
 
         self.particle_delta = 0
 
@@ -358,8 +361,18 @@ class ExchangeContext(DisplacementContext):
 
             reinsert_atoms(self.atoms, self._deleted_atoms, self._deleted_indices)
 
+            if self._saved_constraints is not None:
+                self.atoms.set_constraint(self._saved_constraints)
+
         super().revert_state()
         self.reset()
+
+    def save_constraints(self) -> None:
+        """Remember the constraints of the atoms before atoms are deleted; ASE renumbers
+        (or drops) index-based constraints on deletion, and a reverted deletion has to
+        put them back."""
+        if self._saved_constraints is None:
+            self._saved_constraints = deepcopy(self.atoms.constraints)
 
     def save_state(self) -> None:
         """Save the current state of the context, including the number of exchange
